@@ -386,6 +386,20 @@ def handleT (toks : List String) : String :=
           (if sameWrite e a b v == "D" then "D" else "eq same") else "ne"
       m ++ " || " ++ r
     | _, _, _, _ => "bad-request"
+  | ["crt", e, v1, k1, v] =>     -- code -> identifier -> code: identical codewords
+    match endianOf e, codeOfVK v1 k1, num? v with
+    | some e, some a, some v =>
+      let m := match toCodeConst a with
+        | some id =>
+          match fromCodeConst id with
+          | some b => sameWrite e a b v
+          | none => "E:noback"
+        | none => "E:unsupported"
+      let r := if sameWrite e a a v == "D" then "D"
+               else if documented a then "eq same"
+               else if m == "E:unsupported" then "E:unsupported" else "eq same"
+      m ++ " || " ++ r
+    | _, _, _ => "bad-request"
   | _ => "bad-request"
 
 end Dsi.DD
